@@ -949,6 +949,14 @@ func (broker *Broker) startSend(wg *sync.WaitGroup) {
 					payload.Remove(binned)
 					continue
 				}
+				if file.GetHash() != binned.GetFileHash() {
+					// The file was hashed again since this part was binned, so
+					// the cache and the disk agree but the part is of a version
+					// that has been superseded
+					broker.info("Ignoring superseded file in payload:", binned.GetName())
+					payload.Remove(binned)
+					continue
+				}
 				if f, err := broker.Conf.Store.Sync(
 					file); f != nil || err != nil {
 					// If the file changed, it will get picked up again
